@@ -726,7 +726,20 @@ async fn run_shape(shape: &Value) -> Value {
     let algo = AlgorithmConfig::default();
     let mut ctl = KalmanClockController::new(clock.clone(), sync, algo).unwrap();
     let id = ClockId(7);
-    let mut src = ctl.add_source(id, SourceConfig::default());
+    // poll configuration: one of several (min <= initial <= max within 0..=17), chosen by the shape, so that the
+    // filter's own desired poll interval can be checked against the configured limits (C10)
+    let polls: [(u8, u8, u8); 8] = [(4, 4, 10), (0, 0, 17), (0, 17, 17), (6, 6, 6), (3, 5, 9), (17, 17, 17), (0, 0, 0), (4, 10, 10)];
+    let hsh = shape.to_string().bytes().fold(0u64, |a, b| a.wrapping_mul(131).wrapping_add(b as u64));
+    let (pmin, pinit, pmax) = polls[(hsh % polls.len() as u64) as usize];
+    let source_config = SourceConfig {
+        poll_interval_limits: crate::time_types::PollIntervalLimits {
+            min: crate::time_types::PollInterval::from_byte(pmin),
+            max: crate::time_types::PollInterval::from_byte(pmax),
+        },
+        initial_poll_interval: crate::time_types::PollInterval::from_byte(pinit),
+    };
+    let (mut poll_lo, mut poll_hi) = (i8::MAX, i8::MIN);
+    let mut src = ctl.add_source(id, source_config);
     ctl.source_update(id, true);
     let mut c = Classes::new();
     let mut panics: Vec<String> = Vec::new();
@@ -826,6 +839,10 @@ async fn run_shape(shape: &Value) -> Value {
                 break;
             }
         };
+        if let Ok(d) = util::catch(|| src.desired_poll_interval().as_log()) {
+            poll_lo = poll_lo.min(d);
+            poll_hi = poll_hi.max(d);
+        }
         match util::catch(|| src.observe()) {
             Ok(o) => {
                 c.put("obs_offset", o.offset.to_seconds(), false);
@@ -910,7 +927,9 @@ async fn run_shape(shape: &Value) -> Value {
         }
     }
     json!({"cls": c.0, "nanpanic": nanpanic, "panics": panics, "stable": stable, "clock_calls": clock_calls,
-           "disp_nan_after_step": disp_nan_after_step})
+           "disp_nan_after_step": disp_nan_after_step,
+           "poll": {"min": pmin, "init": pinit, "max": pmax, "seen_lo": poll_lo, "seen_hi": poll_hi,
+                    "ok": poll_lo > poll_hi || (poll_lo >= pmin as i8 && poll_hi <= pmax as i8)}})
 }
 
 // the frequency variance every initial-phase snapshot carries (source.rs INITIALIZATION_FREQ_UNCERTAINTY)
